@@ -100,7 +100,8 @@ def shrink_and_verify(binp, wdir, prop, seed, fail, crash, budget):
         json.dump(rf, f, indent=1)
     # verify in a fresh process (a few attempts: see DESIGN 8.1 on select fairness)
     reproduced = False
-    for attempt in range(4):
+    unstable = str(rf.get("trace_hash", "")).startswith("unstable:")
+    for attempt in range(16 if unstable else 4):
         vout = os.path.join(wdir, "verify.json")
         if os.path.exists(vout):
             os.remove(vout)
@@ -355,6 +356,7 @@ def run_check(prop, args, wdir):
         "runs_per_hour": int(runs / explore_wall * 3600) if explore_wall > 0 else 0,
         "seeds_per_hour": int(runs / explore_wall * 3600) if explore_wall > 0 else 0,
         "workers": workers,
+        "runs_with_uncontrolled_order": sum(s.get("unstable_runs", 0) for s in sums),
         "explore_wall_s": round(explore_wall, 2),
         "build_s": round(build_s, 2),
         "components": meta.get("components", {}),
